@@ -100,6 +100,7 @@ class Machine:
         self.env = dict(env)
         self.attrs, self.call_hook, self.fuel, self.undecided = attrs, call, fuel, undecided
         self.stores: List[tuple] = []
+        self.attr_stores: List[tuple] = []
 
     # -- expressions ------------------------------------------------------------------------------------------------------
     def ev(self, e) -> Any:
@@ -114,7 +115,7 @@ class Machine:
             if isinstance(base, Opaque):
                 text = f"{base.text}.{e.attr}"
                 v = self.attrs(text)
-                return Opaque(text) if v is NotImplemented else v
+                return Opaque(text, ("attr", base, e.attr)) if v is NotImplemented else v
             return Opaque(ast.unparse(e))
         if isinstance(e, ast.Tuple):
             return tuple(self.ev(x) for x in e.elts)
@@ -268,8 +269,28 @@ class Machine:
                     return Mono(x.base, x.exp + y[1])
         return Opaque(f"({render(a)} {type(op).__name__} {render(b)})", (type(op).__name__, a, b))
 
+    def callee(self, f):
+        """(name, receiver): the name under which a call is reported - through a local that holds a function value
+        (`join = getattr(start, "union"); join(...)`) and through opaque receivers (`target.copy()`)."""
+        if isinstance(f, ast.Name):
+            v = self.env.get(f.id)
+            if isinstance(v, Opaque):
+                recv = v.parts[1] if v.parts and v.parts[0] == "attr" else None
+                return v.text, recv
+            return f.id, None
+        if isinstance(f, ast.Attribute):
+            base = self.ev(f.value)
+            if isinstance(base, Opaque):
+                return f"{base.text}.{f.attr}", base
+            return ast.unparse(f), base
+        if isinstance(f, ast.Call):                 # getattr(obj, name)(...)
+            v = self.ev(f)
+            if isinstance(v, Opaque):
+                return v.text, (v.parts[1] if v.parts and v.parts[0] == "attr" else None)
+        return ast.unparse(f), None
+
     def call(self, e: ast.Call):
-        name = ast.unparse(e.func)
+        name, recv = self.callee(e.func)
         args: List[Any] = []
         for a in e.args:
             if isinstance(a, ast.Starred):
@@ -318,7 +339,7 @@ class Machine:
         if name == "getattr" and len(args) >= 2 and isinstance(args[0], Opaque) and isinstance(args[1], str):
             text = f"{args[0].text}.{args[1]}"
             v = self.attrs(text)
-            return Opaque(text) if v is NotImplemented else v
+            return Opaque(text, ("attr", args[0], args[1])) if v is NotImplemented else v
         if short in ("values", "keys", "items") and isinstance(e.func, ast.Attribute) and not args:
             v = self.ev(e.func.value)
             if isinstance(v, dict):
@@ -334,9 +355,8 @@ class Machine:
             return list(range(*args))
         if name in ("int", "float") and args and isinstance(args[0], (int, float, Mono)):
             return args[0]
-        if short == "copy" and isinstance(e.func, ast.Attribute):
-            v = self.ev(e.func.value)
-            return dict(v) if isinstance(v, dict) else v
+        if short == "copy" and isinstance(e.func, ast.Attribute) and isinstance(recv, (dict, list)):
+            return dict(recv) if isinstance(recv, dict) else list(recv)
         if short == "get" and isinstance(e.func, ast.Attribute):
             v = self.ev(e.func.value)
             if isinstance(v, dict) and args:
@@ -351,16 +371,27 @@ class Machine:
         if short in ("min", "max") and args and all(isinstance(a, (int, float)) for a in args):
             return (min if short == "min" else max)(args)
         parts = [render(a) for a in args] + [f"{k}={render(v)}" for k, v in kwargs.items()]
-        return Opaque(f"{name}({', '.join(parts)})", ("call", name, list(args), dict(kwargs)))
+        return Opaque(f"{name}({', '.join(parts)})", ("call", name, list(args), dict(kwargs), recv))
 
     # -- statements -------------------------------------------------------------------------------------------------------
     def assign(self, t, v):
         if isinstance(t, ast.Name):
             self.env[t.id] = v
         elif isinstance(t, (ast.Tuple, ast.List)):
-            if isinstance(v, (tuple, list)) and len(v) == len(t.elts) and not any(isinstance(x, ast.Starred) for x in t.elts):
+            stars = [i for i, x in enumerate(t.elts) if isinstance(x, ast.Starred)]
+            if isinstance(v, (tuple, list)) and len(v) == len(t.elts) and not stars:
                 for tt, vv in zip(t.elts, v):
                     self.assign(tt, vv)
+            elif isinstance(v, (tuple, list)) and len(stars) == 1 and len(v) >= len(t.elts) - 1:
+                i = stars[0]
+                after = len(t.elts) - i - 1
+                for tt, vv in zip(t.elts[:i], v[:i]):
+                    self.assign(tt, vv)
+                self.assign(t.elts[i].value, list(v[i:len(v) - after]))
+                for tt, vv in zip(t.elts[i + 1:], v[len(v) - after:] if after else []):
+                    self.assign(tt, vv)
+            elif isinstance(v, (tuple, list)):
+                raise Raised("ValueError")          # not enough / too many values to unpack
             else:
                 for i, tt in enumerate(t.elts):
                     self.assign(tt.value if isinstance(tt, ast.Starred) else tt, Opaque(f"{v!r}[{i}]"))
@@ -371,7 +402,9 @@ class Machine:
             elif isinstance(base, Opaque) and not isinstance(t.slice, ast.Slice):
                 self.stores.append((base.text, self.ev(t.slice), v))      # element store into an array of the analysed program
         elif isinstance(t, ast.Attribute):
-            pass            # stores into objects are outside the model
+            base = self.ev(t.value)
+            if isinstance(base, Opaque):
+                self.attr_stores.append((base, t.attr, v))        # obj.attr = v on an object of the analysed program
 
     def run(self, stmts):
         for st in stmts:
